@@ -46,6 +46,10 @@ PROPS = {
         "lean_modules": ["C07"],
         "rule": "every arithmetic and comparison op x {safe, unsafe, reuse, incr, reuse aliasing the first / second operand, incr aliasing an operand} x {TT, TS, ST} x operand layouts as C06 x destination layouts {contiguous, sliced view, lazily transposed}; identity of the returned tensor and full dumps (elements + raw window) of result, every operand, the destination and the first parent after the call",
     },
+    "C08": {
+        "lean_modules": ["C08"],
+        "rule": "Sum/Max/Min (engine function and Dense method), Argmax/Argmin (function and method) and (*Dense).Reduce(x+y) x element types (Sum 14 numeric, Max/Min 12 ordered numeric, Arg 13 ordered incl. string, Reduce all 16; bool/string/complex refusals) x 24 shapes of rank 1-4 (vector-like, length-one axes, rank-4 shapes whose middle axes have extent 1,2,3,4) x every non-empty axis subset in ascending and shuffled order plus 'no axes' (every single axis and AllAxes for arg-reductions and Reduce) x operand layouts {contiguous, lazily transposed, offset slice, stepped slice, materialised} plus low-volume column-major, contiguous leading-axis view, clone of a stepped view x value sets {distinct, special: overflow/extremes/NaN/Inf, small positive, ties+negatives}, ties forced by memset/zero/setat on sub-views; malformed stream. Model terms name the kernel's exact fold order and scalar function and are evaluated with Go's operators (bit-exact); S folds canonically and is value-checked where every fold order agrees, shape-checked always; arg indices are computed in Lean from the known order of the generated values; result, operand and first parent are dumped after each call.",
+    },
     "C09": {
         "lean_modules": ["C09"],
         "rule": "element types float32/float64/complex64/complex128 (trace: all sixteen; refusals: int, uint, bool, string, mismatched types) x products {Inner, MatVecMul, MatMul, Outer, Contract/TensorMul, Dot, Trace} x {package function, method}; operand shapes: vector forms (n), (n,1), (1,n) for n in 1..4, all matrices with dims 1..4, rank-3/4 tensors with dims <= 4; TensorMul with every valid single contraction axis pair for ranks 1..4 x 1..4, pairs of axes and no axes, invalid axes; Dot over the full rank table 0..4 x 0..4; every pair of operand layouts {contiguous, lazily transposed, offset slice, stepped slice, materialised} x {safe, reuse, incr}, a column-major block; destinations {fresh, same size other shape, wrong size, view, lazily transposed, other element type}; small-integer value sets so every sum is exact and the comparison is bit-exact in any accumulation order; result, operands, destination and parents of views are dumped after the call",
